@@ -818,7 +818,10 @@ def convolve_templates(
     nbins = len(data)
     ntemps = len(temp_bank)
     convs = np.empty((ntemps, nbins), dtype=data.dtype)
-    data_pad = circular_pad_goodsize(data)
+    # Circular correlation over the data itself: transform at the data length.
+    # (Padding to a "good" FFT size with copies of the leading samples counts
+    # those samples twice and wraps the templates at the padded length.)
+    data_pad = data
     data_fft = np.fft.rfft(data_pad)
     for itemp in range(ntemps):
         temp_kernel = temp_bank[itemp]
